@@ -1,6 +1,26 @@
-(* C06 — mapping a fragment graph onto more or fewer processors keeps its result (statements follow) *)
-From Coq Require Import List.
+(* C06 — mapping a fragment graph onto more or fewer processors keeps its result.
+   The model of fragmentComposer (Front/Frag.v) is compared with the assembler instruction by
+   instruction for every processor of every partition, and the graph's direct evaluation with the
+   settled outputs of the simulated machines.  Proved so far: the register discipline that makes
+   collapsing harmless (temporaries are fresh and distinct, NextResource returns the lowest free
+   register) and the shape of the evaluation; the full statement "one pass of the composed section
+   computes the graph's values at its outputs" is stated in DESIGN.md and not yet proved (partial). *)
+From Coq Require Import List NArith Bool Arith.
+From BM Require Import Isa.Sim Front.Frag Proofs.FragProofs.
 Import ListNotations.
-Fact c06_placeholder : forall (A : Type) (l : list A), l ++ [] = l.
-Proof. intros. apply app_nil_r. Qed.
-Print Assumptions c06_placeholder.
+
+Theorem temporaries_never_collide_with_fragment_registers : forall k used,
+  NoDup (alloc_tmps k used) /\ forall t, In t (alloc_tmps k used) -> ~ In t used.
+Proof. exact temporaries_are_fresh. Qed.
+Print Assumptions temporaries_never_collide_with_fragment_registers.
+
+Theorem next_resource_is_the_lowest_free_register : forall used,
+  ~ In (lowest_free (S (length used)) 0 used) used /\
+  forall k, k < lowest_free (S (length used)) 0 used -> In k used.
+Proof. intros used. split; [apply lowest_free_fresh|apply lowest_free_lowest]. Qed.
+Print Assumptions next_resource_is_the_lowest_free_register.
+
+Theorem evaluation_records_one_result_per_instance : forall rsize nregs xs g vals,
+  length (eval_insts rsize nregs xs g vals) = length vals + length g.
+Proof. exact eval_records_every_instance. Qed.
+Print Assumptions evaluation_records_one_result_per_instance.
